@@ -268,20 +268,23 @@ theorem methodKids_named {F : Facts} {v2 : Bool} (ms : List GMethod) (hms : ∀ 
   exact hms m hm
 
 theorem addMethods_sn {F : Facts} {v2 : Bool} {bt : List Builtin} {w : U → Nat → Option Name → Option (U × Nat)}
-    (hw : WalkOK bt w) (hs : WalkSNOK F v2 bt w) (u : U) (o : Nat) (ms : List GMethod) (u' : U) (o' : Nat)
+    (hw : WalkOK bt w) (hs : WalkSNOK F v2 bt w) (u : U) (o : Nat) (ms : List GMethod) {g : Nat} (u' : U) (o' : Nat)
     (hi : Inv bt u) (h : SN F v2 u) (hms : ∀ m ∈ ms, NameFor F v2 (nameOf v2 m.str) m.sig)
-    (hf : addMethods v2 w u o ms = some (u', o')) : SN F v2 u' := by
+    (hf : addMethods v2 w u o ms g = some (u', o')) : SN F v2 u' := by
   unfold addMethods at hf
   split at hf
-  · cases hr : runKids w o u (methodKids v2 ms) with
+  · obtain ⟨h1, _⟩ := modify_inv (o := o) (ghost_goodUpdate u o g false) hi
+    have s1 : SN F v2 (u.modify o (fun ob => { ob with nsrc := some g, nskip := false })) :=
+      modify_sn (fun ob => ⟨rfl, rfl, fun hk => hk⟩) h
+    cases hr : runKids w o (u.modify o (fun ob => { ob with nsrc := some g, nskip := false })) (methodKids v2 ms) with
     | none => simp [hr] at hf
     | some u3 =>
       simp only [hr, Option.some.injEq, Prod.mk.injEq] at hf
       obtain ⟨rfl, rfl⟩ := hf
-      exact runKids_sn hw hs o _ _ _ hi h (methodKids_named ms hms) hr
+      exact runKids_sn hw hs o _ _ _ h1 s1 (methodKids_named ms hms) hr
   · simp only [Option.some.injEq, Prod.mk.injEq] at hf
     obtain ⟨rfl, rfl⟩ := hf
-    exact h
+    exact modify_sn (fun ob => ⟨rfl, rfl, fun hk => hk⟩) h
 
 /-- the children of an unnamed node are walked without a name, except the methods of an interface -/
 theorem shape_kids_named {F : Facts} {v2 : Bool} (g : Nat) (K : Kind) (kids : List (Nat × Option Name × Setter))
